@@ -6,6 +6,7 @@ CONSTANTS
   MaxPings = 3
   PingFirst = FALSE
   NoRaces = FALSE
+  ServerCuts = FALSE
   Slow = {}
   EmitEdges = FALSE
 INIT TraceInit
